@@ -38,6 +38,7 @@ class Crate:
                 if b.get("dk") in ("Fn", "AssocFn"):
                     lower_cursor_loop(b)
                     lower_fold_loop(b)
+                lower_get_insert(b["body"])
 
     def _annotate(self):
         """resolve interned type indices to strings in place (ty, adj, owner, gen)"""
@@ -773,3 +774,97 @@ def lower_fold_loop(fnrec):
                                  "then": {"k": "Block", "unsafe": False, "ty": "!", "sp": sp, "b": {"stmts": [{"k": "SSemi", "e": {"k": "Ret", "e": p_path, "ty": "!", "sp": sp}}]}}}}
     stmts[-2:] = [guard] + lstmts[:-1] + [{"k": "SSemi", "e": {"k": "Ret", "e": call, "ty": "!", "sp": sp}}]
     del b["expr"]
+
+
+def _same_place(a, b):
+    """two expressions name the same place / value: equal up to `&`, `*`, `.clone()` and spans"""
+    def key(n):
+        n = strip(n)
+        while isinstance(n, dict) and n.get("k") == "MethodCall" and n.get("name") in ("clone", "borrow", "as_ref", "to_owned") and not n.get("args"):
+            n = strip(n["recv"])
+        if not isinstance(n, dict):
+            return repr(n)
+        k = n.get("k")
+        if k == "Path":
+            return ("P", n.get("r"), n.get("id"), n.get("path"))
+        if k == "Field":
+            return ("F", n.get("name"), key(n["base"]))
+        if k == "MethodCall":
+            return ("M", n.get("callee"), key(n["recv"]), tuple(key(x) for x in n["args"]))
+        if k == "Call":
+            return ("C", n.get("callee"), tuple(key(x) for x in n["args"]))
+        if k == "Lit":
+            return ("L", n.get("v"))
+        return ("?", id(n))
+    return key(a) == key(b)
+
+
+def lower_get_insert(root):
+    """`match m.get(k) { Some(v) => A, None => { m.insert(k, x); } }` (or the `if let .. else` spelling), where A does not change m, is the same
+    keep-first update as `match m.entry(k) { Occupied(e) => A[v := e.get()], Vacant(e) => { e.insert(x); } }`: rewritten in place into the
+    entry form (the shape the map-update rules anchor on)."""
+    MAPS = {"std::collections::BTreeMap": "std::collections::btree_map", "std::collections::HashMap": "std::collections::hash_map"}
+    for parent in list(walk(root)):
+        for key_, n in list(parent.items()) if isinstance(parent, dict) else []:
+            cands = n if isinstance(n, list) else [n]
+            for idx, node in enumerate(cands):
+                if not isinstance(node, dict):
+                    continue
+                some_pat = then = els = get = None
+                if node.get("k") == "If" and strip(node["cond"]).get("k") == "Let" and "else" in node:
+                    lt = strip(node["cond"])
+                    if lt["pat"].get("k") == "PTupleStruct" and str(lt["pat"].get("path", "")).endswith("::Some") and len(lt["pat"].get("ps", [])) == 1:
+                        some_pat, get, then, els = lt["pat"]["ps"][0], strip(lt["init"]), node["then"], node["else"]
+                elif node.get("k") == "Match" and node.get("src") == "Normal" and len(node["arms"]) == 2 and not any("guard" in a for a in node["arms"]):
+                    sm = [a for a in node["arms"] if a["pat"].get("k") == "PTupleStruct" and str(a["pat"].get("path", "")).endswith("::Some") and len(a["pat"].get("ps", [])) == 1]
+                    def is_none(pt):
+                        if str(pt.get("path", "")).endswith("::None"):
+                            return True
+                        e = pt.get("e") if pt.get("k") == "PExpr" else None
+                        return isinstance(e, dict) and str(strip(e).get("path", "")).endswith("::None")
+                    nn = [a for a in node["arms"] if is_none(a["pat"])]
+                    if len(sm) == 1 and len(nn) == 1:
+                        some_pat, get, then, els = sm[0]["pat"]["ps"][0], strip(node["scrut"]), sm[0]["body"], nn[0]["body"]
+                if get is None or not (get.get("k") == "MethodCall" and get.get("name") == "get" and len(get["args"]) == 1):
+                    continue
+                cal = str(get.get("callee", ""))
+                base = next((m for m in MAPS if cal.startswith(m + "::")), None)
+                if base is None:
+                    continue
+                m_expr, k_expr = get["recv"], get["args"][0]
+                writes = [x for x in walk(els, into_closures=False) if x.get("k") == "MethodCall" and str(x.get("callee", "")).startswith(base + "::") and _same_place(x["recv"], m_expr)]
+                if len(writes) != 1 or writes[0].get("name") != "insert" or len(writes[0]["args"]) != 2 or not _same_place(writes[0]["args"][0], k_expr):
+                    continue
+                if any(x.get("k") == "MethodCall" and str(x.get("callee", "")).startswith(base + "::") and _same_place(x["recv"], m_expr)
+                       and x.get("name") in ("insert", "remove", "entry", "get_mut", "clear", "extend", "retain", "append") for x in walk(then)):
+                    continue
+                ins = writes[0]
+                mod = MAPS[base]
+                mty = str(strip(m_expr).get("ty", "") or m_expr.get("ty", ""))
+                inner = mty[mty.index("<") + 1:-1] if "<" in mty else ""
+                ety = "%s::Entry<'{erased}, %s>" % (mod, inner)
+                sp = node.get("sp", "")
+                base_id = -abs(hash(sp)) % 10 ** 9 - 2 * 10 ** 9
+                e_occ = {"k": "Bind", "id": base_id, "name": "e", "mode": "BindingMode(No, Not)", "mut": False, "byref": False, "ty": "%s::OccupiedEntry<'{erased}, %s>" % (mod, inner)}
+                e_vac = {"k": "Bind", "id": base_id - 1, "name": "e", "mode": "BindingMode(No, Not)", "mut": False, "byref": False, "ty": "%s::VacantEntry<'{erased}, %s>" % (mod, inner)}
+                occ_get = {"k": "MethodCall", "name": "get", "callee": "%s::OccupiedEntry::<'a, K, V, A>::get" % mod, "args": [], "ty": get.get("ty", "").replace("std::option::Option<", "", 1)[:-1] or "&?", "sp": sp,
+                           "recv": {"k": "Path", "r": "local", "id": base_id, "name": "e", "ty": e_occ["ty"], "sp": sp}}
+                occ_body = {"k": "Block", "unsafe": False, "ty": then.get("ty", "()"), "sp": sp,
+                            "b": {"stmts": [{"k": "SLet", "pat": some_pat, "init": occ_get}], "expr": then}}
+                # the insert becomes the vacant entry's insert
+                keep = {k: ins[k] for k in ("sp",) if k in ins}
+                val = ins["args"][1]
+                ins.clear()
+                ins.update({"k": "MethodCall", "name": "insert", "callee": "%s::VacantEntry::<'a, K, V, A>::insert" % mod, "args": [val], "ty": "&mut ?",
+                            "recv": {"k": "Path", "r": "local", "id": base_id - 1, "name": "e", "ty": e_vac["ty"], "sp": sp}})
+                ins.update(keep)
+                entry = {"k": "MethodCall", "name": "entry", "callee": base + "::<K, V, A>::entry", "recv": m_expr, "args": [k_expr], "ty": ety, "sp": sp}
+                if get.get("gen"):
+                    entry["gen"] = get["gen"]
+                new = {"k": "Match", "src": "Normal", "ty": node.get("ty", "()"), "sp": sp, "lowered": "get-insert", "scrut": entry,
+                       "arms": [{"pat": {"k": "PTupleStruct", "r": "def", "dk": "Ctor(Variant, Fn)", "path": mod + "::Entry::Vacant", "of": mod + "::Entry::Vacant", "ps": [e_vac], "ty": ety}, "body": els},
+                                {"pat": {"k": "PTupleStruct", "r": "def", "dk": "Ctor(Variant, Fn)", "path": mod + "::Entry::Occupied", "of": mod + "::Entry::Occupied", "ps": [e_occ], "ty": ety}, "body": occ_body}]}
+                if isinstance(n, list):
+                    n[idx] = new
+                else:
+                    parent[key_] = new
